@@ -1,9 +1,10 @@
 import BigtreeModel.Render
 import BigtreeModel.RenderStyles
 import BigtreeProofs.Lemmas.RenderV
-import BigtreeProofs.Lemmas.RenderRT3
+import BigtreeProofs.Lemmas.RenderRT4
 import BigtreeProofs.Lemmas.RenderMermaid
 import BigtreeProofs.Lemmas.RenderH
+import BigtreeProofs.Lemmas.RenderHNodes
 import BigtreeProofs.Lemmas.RenderDot2
 /-!
 # C18 — text and graph renderings encode the tree faithfully
@@ -66,8 +67,22 @@ theorem print_roundtrip (st : Style) (md : Nat) (t : Tree) (hst : styleOk st = t
 example : ("ansi", exSt) ∈ builtinStyles ∧ styleOk exSt = true ∧ (∀ n ∈ namesT exT, nameOk exSt n = true) ∧
     sibDistinct exT = true ∧ erase (prune 0 exT) ≠ .node 0 ['a'] [] [] := by decide
 
+/-- the same on the text level, as `str_to_tree` is called: `"\n".join(lines)` is stripped of
+surrounding line breaks, split at line breaks and parsed — provided neither the glyphs nor the names
+contain a line break -/
+theorem print_roundtrip_text (st : Style) (md : Nat) (t : Tree) (hst : styleOk st = true)
+    (hnl : '\n' ∉ st.stem ++ st.branch ++ st.stemFinal)
+    (hnames : ∀ n ∈ namesT t, nameOk st n = true ∧ '\n' ∉ n) (hsib : sibDistinct t = true) :
+    strToTree [st.branch, st.stemFinal] (joinNl ((yieldTree st md t).map Line.text)) =
+      some (erase (prune md t)) :=
+  strToTree_text hst md t hnl hnames hsib
+
+example : '\n' ∉ exSt.stem ++ exSt.branch ++ exSt.stemFinal ∧ (∀ n ∈ namesT exT, nameOk exSt n = true ∧ '\n' ∉ n) ∧
+    joinNl ((yieldTree exSt 2 exT).map Line.text) = "a\n|-- b\n`-- c".toList := by decide
+
 /-- the side conditions hold for every entry of the generated `PRINT_STYLES` table -/
-theorem builtin_styles_ok : ∀ e ∈ builtinStyles, styleOk e.2 = true := by decide
+theorem builtin_styles_ok :
+    ∀ e ∈ builtinStyles, styleOk e.2 = true ∧ '\n' ∉ e.2.stem ++ e.2.branch ++ e.2.stemFinal := by decide
 
 example : builtinStyles.length = 6 := by decide
 
@@ -189,6 +204,16 @@ example : (dotIds ['/'] k2Witness).getD 22 [] = "x10".toList ∧ (dotIds ['/'] k
 
 `hplace S inter pad 1 0 t'` lists every node of the rendered tree `t'` (pre-order; the empty slots of a
 BinaryNode count as blank leaves) with its depth and the row on which it is placed. -/
+
+/-- `hplace` lists exactly the nodes of the rendered tree, in pre-order, with their depths and leaf
+flags (`hnodes` is the obvious structural listing) — so the three theorems below speak about every node -/
+theorem h_places_all_nodes (S : HStyle) (inter : Bool) (pad : Nat → Nat) (t : HTree) :
+    (hplace S inter pad 1 0 t).map (fun p => (p.depth, p.name, p.isLeaf)) = hnodes 1 t :=
+  hplace_nodes S inter pad 1 0 t
+
+example : hnodes 1 (ofTree exT) =
+    [(1, ['a'], false), (2, ['b'], false), (3, ['d'], true), (3, ['e'], false), (4, ['g'], true), (2, ['c'], true)] := by
+  decide
 
 /-- column bands: in the rows `hyield_tree` returns, a node of depth `e` is shown at column
 `hcol inter pad 1 (e - 1)` of its row — a function of the depth alone (with or without intermediate
